@@ -119,11 +119,11 @@ def plan(tier, seed):
             ds = [ds[0], ds[2], ds[6], ds[7]]
         for k, scn in enumerate(ds):
             for p in range(parts):
-                specs.append({"mode": "enum", "scn": scn, "part": p, "parts": parts, "cap": 700 if tier == "quick" else None})
+                specs.append({"mode": "enum", "scn": scn, "part": p, "parts": parts, "cap": 700 if tier == "quick" else 6000})
     if tier != "quick":
         for s in range(30):
             for p in range(2):
-                specs.append({"mode": "enum", "gen_seed": seed * 11 + s, "part": p, "parts": 2, "cap": None})
+                specs.append({"mode": "enum", "gen_seed": seed * 11 + s, "part": p, "parts": 2, "cap": 2500})
     return specs
 
 
